@@ -8,6 +8,7 @@ import (
 	"fmt"
 	"io"
 	"strconv"
+	"strings"
 	"time"
 
 	"github.com/mithrandie/csvq/lib/json"
@@ -76,6 +77,9 @@ func encodeCSV(ctx context.Context, fp io.Writer, view *View, options option.Exp
 			str, effect, _ := ConvertFieldContents(view.RecordSet[i][j][0], false, options.ScientificNotation)
 			quote := false
 			if options.EncloseAll && (effect == option.StringEffect || effect == option.DatetimeEffect) {
+				quote = true
+			} else if strings.ContainsAny(str, "\r\n") {
+				// a line break inside an unquoted field would be read back as a record separator
 				quote = true
 			}
 			fields[j] = csv.NewField(str, quote)
